@@ -102,6 +102,63 @@ def weightJudgeLine (line : String) : String :=
       | none => "bad-op"
   | _, _ => "bad-op"
 
+/-! ### end-to-end stream: spec of a route rule -> graph refs -> backend group -> block -/
+
+def parseOptInts (s : String) : Option (List (Option Int)) :=
+  (parseStrList s).mapM fun x => if x == "nil" then some none else (parseInt? x).map some
+
+def untilde (s : String) : String := if s == "~" then "" else s
+def tilde (s : String) : String := if s == "" then "~" else s
+def showList (l : List String) : String := if l.isEmpty then "-" else ",".intercalate l
+
+def mkSpec : List (Option Int) → List Bool → List String → List SpecRef
+  | w :: ws, v :: vs, u :: us => ⟨w, v, untilde u⟩ :: mkSpec ws vs us
+  | _, _, _ => []
+
+/-- E line (fields kind ns name idx sw sv su) -> what the model predicts for every stage -/
+def e2eModelLine (line : String) : String :=
+  let fs := line.splitOn "\t"
+  match tfield fs "kind", tfield fs "ns", tfield fs "name", tfield fs "idx" >>= String.toNat?,
+        tfield fs "sw" >>= parseOptInts, tfield fs "sv" >>= parseBools, tfield fs "su" with
+  | some kind, some ns, some name, some idx, some sw, some sv, some su =>
+    let us := parseStrList su
+    if sw.length != sv.length || sw.length != us.length then "bad-op" else
+    let spec := mkSpec sw sv us
+    let grefs := spec.map createBackendRef
+    let bs := newBackendGroup grefs
+    let gname := groupName ns name idx
+    let blk := match distributions bs with
+      | none => "-"
+      | some ds => (block (safeVar gname) ds).replace "\n" "|"
+    let bname := backendGroupName gname bs
+    let target := if bs.length > 1 then "$" ++ safeVar bname else bname
+    let pp := if kind == "grpc" then "grpc://" ++ target else "http://" ++ target ++ "$request_uri"
+    "gw=" ++ showList (grefs.map fun g => toString g.weight) ++
+    "\tgv=" ++ showList (grefs.map fun g => if g.valid then "1" else "0") ++
+    "\tgu=" ++ showList (grefs.map fun g => tilde g.servicePortReference) ++
+    "\tbw=" ++ showList (bs.map fun b => toString b.weight) ++
+    "\tbv=" ++ showList (bs.map fun b => if b.valid then "1" else "0") ++
+    "\tbu=" ++ showList (bs.map fun b => tilde b.upstream) ++
+    "\tblock=" ++ blk ++ "\tpp=" ++ pp
+  | _, _, _, _, _, _, _ => "bad-op"
+
+/-- E line -> the property judged from the SPEC: the k-th distribution line belongs to the k-th backendRef, whose
+weight is `spec.weight` (1 if unset), which keeps its share whether or not it resolves, and which answers 500
+(invalid-backend-ref) iff it does not resolve -/
+def e2eJudgeLine (line : String) : String :=
+  let fs := line.splitOn "\t"
+  match tfield fs "kind", tfield fs "sw" >>= parseOptInts, tfield fs "sv" >>= parseBools, tfield fs "su",
+        tfield fs "block", tfield fs "pp", tfield fs "inv500" with
+  | some kind, some sw, some sv, some su, some blk, some pp, some inv =>
+    let us := (parseStrList su).map untilde
+    if sw.length != sv.length || sw.length != us.length || sw.length < 2 then "bad-op" else
+    if sw.any (fun w => match w with | some x => x < 0 || x > 1000000 | none => false) then "bad-op" else
+    let ws := sw.map fun w => (w.getD 1).toNat
+    match SplitClientsJudge.judgeG (kind == "grpc") ws sv us blk pp (inv == "1") with
+    | [] => "ok"
+    | cs => "fail " ++ " ".intercalate cs
+  | _, _, _, _, _, _, _ => "bad-op"
+
 def driver (args : List String) : IO UInt32 := do
   let stdin ← IO.getStdin
   let stdout ← IO.getStdout
@@ -109,9 +166,11 @@ def driver (args : List String) : IO UInt32 := do
   | ["model"] => forEachLine stdin fun l => stdout.putStrLn (modelLine false l)
   | ["prefix"] => forEachLine stdin fun l => stdout.putStrLn (modelLine true l)
   | ["judge"] => forEachLine stdin fun l => stdout.putStrLn (judgeLine l)
+  | ["e2emodel"] => forEachLine stdin fun l => stdout.putStrLn (e2eModelLine l)
+  | ["e2ejudge"] => forEachLine stdin fun l => stdout.putStrLn (e2eJudgeLine l)
   | ["wmodel"] => forEachLine stdin fun l => stdout.putStrLn (weightModelLine l)
   | ["wjudge"] => forEachLine stdin fun l => stdout.putStrLn (weightJudgeLine l)
-  | _ => IO.eprintln "usage: C15 model|prefix|judge|wmodel|wjudge"; return 2
+  | _ => IO.eprintln "usage: C15 model|prefix|judge|e2emodel|e2ejudge|wmodel|wjudge"; return 2
   return 0
 
 end NGF.C15Driver
